@@ -266,7 +266,14 @@ impl Drop for SyncAllocatorInner {
 /// Returns the new boundary (the last accessible page) or an I/O error.
 fn grow(file: &File, page: PageNumber) -> std::io::Result<PageNumber> {
     let next_bump = (page.0 + GROW_STORE_BY_PAGES - 1).next_multiple_of(GROW_STORE_BY_PAGES);
+    #[cfg(feature = "verif-hooks")]
+    let vt = crate::verif::before(crate::verif::IoOp::SetLen {
+        fd: file.as_raw_fd(),
+        len: next_bump as u64 * PAGE_SIZE as u64,
+    })?;
     file.set_len(next_bump as u64 * PAGE_SIZE as u64)?;
+    #[cfg(feature = "verif-hooks")]
+    crate::verif::after(vt, true);
     Ok(PageNumber(next_bump))
 }
 
